@@ -284,3 +284,10 @@ package stanza
 //@ func (Error).Is
 //@   ensures[C13] typeof(target) != Error ==> !result
 //@   ensures[C13] typeof(target) == Error ==> (result <==> (target.(Error).Type == "" || target.(Error).Type == se.Type) && (target.(Error).Condition == "" || target.(Error).Condition == se.Condition))
+
+// C13/C09: UnmarshalError decodes a child element called error (a nil start -
+// character data between children - is skipped, never dereferenced), wrapped
+// in its own start element and followed by its own payload.
+//@ func UnmarshalError
+//@   callsite mellium.im/xmlstream.Wrap#1
+//@     assert[C13] start != nil && arg1 == *start && arg1.Name.Local == "error" && arg0 == p
